@@ -6,24 +6,25 @@
 (* returned.  When the same key comes up again the recorded output must be identical            *)
 (* (EquivOutputsEqual); otherwise it is remembered.                                             *)
 (*                                                                                              *)
-(* Representation.  An abstract state (kind, cfg, settings, hist) of module Objects is held as  *)
-(* a node of a trie: `roots` interns (kind, cfg, settings) of objects with an empty history,    *)
-(* `trF` maps <<node, call>> to [next node, output, ...].  Node identity is therefore equality  *)
-(* of (kind, cfg, settings at the root = Objects' `base`, the calls made since), i.e.           *)
-(* Objects!Equivalent.  `trE`                                                                   *)
-(* is the same over calls with the declared-unobservable format erased (Objects!EraseCall),     *)
-(* i.e. Objects!EquivalentModFmt.                                                               *)
+(* Representation.  An abstract state (kind, cfg, settings, base, hist) of module Objects is    *)
+(* held as a node of a trie: `roots` interns (kind, cfg, settings) of objects with an empty     *)
+(* history, `trF` maps <<node, call>> to [next node, output, ...].  Node identity is therefore  *)
+(* equality of (kind, cfg, the settings at the root = Objects' `base`, the calls made since),   *)
+(* i.e. Objects!Equivalent.  `trE` is the same over calls with the declared-unobservable format *)
+(* erased (Objects!EraseCall), i.e. Objects!EquivalentModFmt.                                   *)
 (*                                                                                              *)
 (* CheckC12: outputs under the full key are equal (determinism; copy; reset == fresh + settings)*)
 (* CheckC13: outputs under the erased key are equal (packets of the three entry points; sample  *)
 (*           counts and final ranges of the three decoder formats) and every decode event       *)
 (*           satisfies the sample relations of Objects!SampleRelationOK / ProjectionOK.         *)
-(* TolerateProj16: the projection decoder's 16-bit relation is waived (and counted) on runs in which the float output comes *)
-(*           within 32 units of the 16-bit limits, i.e. where the 16-bit output has to saturate: the 16-bit matrix product     *)
-(*           accumulates in 16 bits and wraps there (known finding).                                                          *)
-(* TolerateF3: a mismatch under the full key is let through (and counted) when it has the shape *)
-(*           of finding F3: an encoder with in-band FEC on, one of the two parties having been  *)
-(*           reset after it had encoded.  The runner uses it only to classify a rejection.      *)
+(* TolerateF3 (set by the runner only while finding F3 is listed as known): a mismatch is let   *)
+(*           through, counted and printed when it has the shape of F3: an encoder with in-band  *)
+(*           FEC on, one of the two parties having been reset after it had encoded.             *)
+(* TolerateProj16 (likewise, finding F-proj16): the projection decoder's 16-bit relation is     *)
+(*           waived, counted and printed on runs in which the float output comes within 32      *)
+(*           units of the 16-bit limits, i.e. where the 16-bit output has to saturate: the      *)
+(*           16-bit matrix product accumulates in 16 bits and wraps there.                      *)
+(* Every other mismatch leaves the trace unconsumed (REJECTED_AT) whatever these constants say. *)
 EXTENDS Objects, Json, IOUtils
 CONSTANTS CheckC12, CheckC13, TolerateF3, TolerateProj16
 VARIABLES l, obj, roots, trF, trE, nextId
